@@ -16,6 +16,21 @@ def cookieCheck (s : St) (c : Conn) (q : Query) (r : Reply) : Cookie.ValidateOut
   Cookie.validate ((s.server? c.srv).getD default).cookie { cookieTry := q.cookieTry, usingTcp := q.usingTcp }
     (if q.edns then q.reqCookie else none) (if r.hasOpt then r.cookie.map hexToBytes else none) r.rcode s.tv
 
+/-- `ares_cookie_validate` asks for a re-send (BADCOOKIE) only together with "drop this response" -/
+theorem validateWith_requeue_drop (isSet : Cookie.TimeVal → Bool) (c : Cookie.CookieSt) (q : Cookie.QState)
+    (rq rs : Option Cookie.Bytes) (rc : Nat) (now : Cookie.TimeVal)
+    (h : (Cookie.validateWith isSet c q rq rs rc now).requeue = true) :
+    (Cookie.validateWith isSet c q rq rs rc now).verdict = .drop := by
+  unfold Cookie.validateWith at h ⊢
+  simp only [] at h ⊢
+  revert h
+  repeat' split
+  all_goals simp
+
+theorem cookieCheck_requeue_drop (s : St) (c : Conn) (q : Query) (r : Reply)
+    (h : (cookieCheck s c q r).requeue = true) : (cookieCheck s c q r).verdict = .drop :=
+  validateWith_requeue_drop _ _ _ _ _ _ _ h
+
 /-- the decision of `process_answer`: the key of the query that response `r`, arriving on `fd`, answers -/
 def acceptKey (s : St) (fd : Nat) (r : Reply) : Option Nat :=
   match s.conn? fd with
@@ -138,9 +153,9 @@ syntax "acc_simp " ident : tactic
 macro_rules
   | `(tactic| acc_simp $h) =>
     `(tactic| repeat (first
-        | rfl
+        | with_reducible rfl
         | (simp only [chan_frame, $h:ident])
-        | (split <;> pair_subst)))
+        | (csplit <;> pair_subst)))
 
 /-- **`process_answer` appends to `accepted` exactly the response it was given, exactly when `acceptKey` says so**
     (stated for recursive calls that leave `accepted` alone, i.e. for what `process_answer` itself does) -/
@@ -186,4 +201,339 @@ theorem bodyProcessAnswer_accepted (hgo : ∀ c s, (go c s).1.accepted = s.accep
             · simp [hs]
 
 end
+/-! ## the `accepted` log over whole runs -/
+
+/-- `accepted` extends `base`, the configuration is `cfg0`, and every entry beyond `base` was authentic in some
+    state with configuration `cfg0` (namely the one in which `process_answer` examined it) -/
+def AccOKF (cfg0 : Cfg) (base : List (Nat × Nat × Reply)) (cfg : Cfg) (acc : List (Nat × Nat × Reply)) : Prop :=
+  cfg = cfg0 ∧ base <+: acc ∧
+    ∀ e ∈ acc.drop base.length, ∃ s0 : St, s0.cfg = cfg0 ∧ Authentic s0 e.1 e.2.1 e.2.2
+
+abbrev AccOK (cfg0 : Cfg) (base : List (Nat × Nat × Reply)) (s : St) : Prop := AccOKF cfg0 base s.cfg s.accepted
+
+theorem AccOKF_append {cfg0 cfg : Cfg} {base acc : List (Nat × Nat × Reply)} (h : AccOKF cfg0 base cfg acc)
+    (e : Nat × Nat × Reply) (s0 : St) (hc : s0.cfg = cfg0) (ha : Authentic s0 e.1 e.2.1 e.2.2) :
+    AccOKF cfg0 base cfg (acc ++ [e]) := by
+  obtain ⟨h1, h2, h3⟩ := h
+  refine ⟨h1, h2.trans (List.prefix_append _ _), ?_⟩
+  intro x hx
+  have hlen : base.length ≤ acc.length := h2.length_le
+  rw [List.drop_append_of_le_length hlen, List.mem_append] at hx
+  cases hx with
+  | inl hx => exact h3 x hx
+  | inr hx => simp only [List.mem_singleton] at hx; subst hx; exact ⟨s0, hc, ha⟩
+
+section
+variable (cfg0 : Cfg) (base : List (Nat × Nat × Reply)) (go : Call → St → St × Ret)
+  (hgo : ∀ c s, AccOK cfg0 base s → AccOK cfg0 base (go c s).1)
+include hgo
+
+theorem bodyProcessAnswer_AccOK (fd : Nat) (r : Reply) (s : St) (h : AccOK cfg0 base s) :
+    AccOK cfg0 base (bodyProcessAnswer go fd r s).1 := by
+  have hkey : ∀ key, acceptKey s fd r = some key → AccOKF cfg0 base s.cfg (s.accepted ++ [(fd, key, r)]) :=
+    fun key hk => AccOKF_append h (fd, key, r) s h.1 (acceptKey_authentic hk)
+  unfold acceptKey at hkey
+  unfold bodyProcessAnswer
+  cases hc : s.conn? fd with
+  | none => simpa [AccOK, St.mfault_accepted, St.mfault_cfg] using h
+  | some c =>
+    simp only [hc] at hkey ⊢
+    by_cases hempty : r.empty = true
+    · simpa [hempty] using h
+    · simp only [hempty, Bool.false_eq_true, ↓reduceIte] at hkey ⊢
+      by_cases hgarb : r.garbage = true
+      · simpa [hgarb] using h
+      · simp only [hgarb, Bool.false_eq_true, ↓reduceIte] at hkey ⊢
+        cases hfind : s.byQid.find? (·.1 == r.id) with
+        | none => simpa using h
+        | some p =>
+          obtain ⟨id, key⟩ := p
+          simp only [hfind] at hkey ⊢
+          cases hq : s.query? key with
+          | none => simpa [AccOK, St.mfault_accepted, St.mfault_cfg] using h
+          | some q =>
+            simp only [hq] at hkey ⊢
+            have hsame : (q.qtype == r.qtype && q.qclass == r.qclass &&
+                if (s.cfg.dns0x20 && !q.usingTcp) = true then q.name == r.name
+                else hexLower q.name == hexLower r.name) = sameQuestion s.cfg q r := rfl
+            rw [hsame]
+            by_cases hs : sameQuestion s.cfg q r = true
+            · simp only [hs, Bool.not_true, Bool.false_eq_true, ↓reduceIte] at hkey ⊢
+              have hv : Cookie.validate ((s.server? c.srv).getD default).cookie
+                  { cookieTry := q.cookieTry, usingTcp := q.usingTcp } (if q.edns = true then q.reqCookie else none)
+                  (if r.hasOpt = true then Option.map hexToBytes r.cookie else none) r.rcode s.tv =
+                  cookieCheck s c q r := rfl
+              rw [hv]
+              by_cases hd : ((cookieCheck s c q r).verdict == Cookie.Verdict.drop) = true
+              · simp only [hd, ↓reduceIte]
+                chan_peel hgo [AccOK]
+              · simp only [hd, Bool.false_eq_true, ↓reduceIte] at hkey ⊢
+                have hk := hkey key rfl
+                -- the entry is appended in a state whose `cfg` is still `s.cfg` and whose `accepted` is what the
+                -- (possible) requeue call left; on this path no requeue call is made before the append when the
+                -- verdict is `accept`, but the model text allows one, so we go through `hgo`
+                by_cases hrq : (cookieCheck s c q r).requeue = true
+                · -- `validate` never asks for a requeue together with `accept`
+                  exfalso
+                  have := cookieCheck_requeue_drop s c q r hrq
+                  rw [this] at hd; simp at hd
+                · simp only [hrq, Bool.false_eq_true, ↓reduceIte]
+                  chan_peel hgo [AccOK]
+            · simpa [hs] using h
+
+end
+
+/-- unfold whichever body `execBody` dispatched to -/
+macro "unfold_body" : tactic => `(tactic| first
+  | unfold bodySendNolock | unfold bodyProbe | unfold bodyFlush
+  | unfold bodyRequeue | unfold bodyEndQuery | unfold bodyCallback | unfold bodyUserCb | unfold bodyReactions
+  | unfold bodyConnError | unfold bodyCloseConn | unfold bodyCloseLoop | unfold bodyProcessWrite
+  | unfold bodyProcessRead | unfold bodyReadAnswers | unfold bodyFlushRequeue | unfold bodyProcessTimeouts
+  | unfold bodyCleanupConns | unfold bodyClientStart | unfold bodyRunActs | unfold bodyCancel
+  | unfold bodyCancelLoop | unfold bodyDestroy)
+
+section
+variable (cfg0 : Cfg) (base : List (Nat × Nat × Reply)) (go : Call → St → St × Ret)
+  (hgo : ∀ c s, AccOK cfg0 base s → AccOK cfg0 base (go c s).1)
+include hgo
+
+theorem foldl_closeConn_AccOK (fds : List Nat) (s : St) (h : AccOK cfg0 base s) :
+    AccOK cfg0 base (fds.foldl (fun s fd => (go (.closeConn fd .ok) s).1) s) := by
+  induction fds generalizing s with
+  | nil => exact h
+  | cons fd rest ih => exact ih _ (hgo _ _ h)
+
+theorem sqFlush_AccOK (fd : Nat) (s : St) (h : AccOK cfg0 base s) : AccOK cfg0 base (sqFlush go fd s).2 := by
+  unfold sqFlush; chan_peel hgo [AccOK]
+
+theorem sqLink_AccOK (pd : Bool) (key : Nat) (srv : Server) (fd : Nat) (s : St) (h : AccOK cfg0 base s) :
+    AccOK cfg0 base (sqLink go pd key srv fd s).1 := by
+  unfold sqLink; chan_peel hgo [AccOK]
+
+theorem sqWrite_AccOK (reqSrv : Option Nat) (key : Nat) (q : Query) (srv : Server) (fd : Nat) (s : St)
+    (h : AccOK cfg0 base s) : AccOK cfg0 base (sqWrite go reqSrv key q srv fd s).1 := by
+  have h1 : AccOK cfg0 base (sqPrep key q srv fd s).1 := by simpa only [AccOK, chan_frame] using h
+  have h2 := sqFlush_AccOK cfg0 base go hgo fd _ h1
+  unfold sqWrite
+  simp only []
+  split
+  · exact sqLink_AccOK cfg0 base go hgo _ _ _ _ _ h2
+  · exact hgo _ _ h2
+  all_goals chan_peel hgo [AccOK]
+
+theorem bodySendQuery_AccOK (reqSrv : Option Nat) (key : Nat) (s : St) (h : AccOK cfg0 base s) :
+    AccOK cfg0 base (bodySendQuery go reqSrv key s).1 := by
+  rw [bodySendQuery_eq]
+  split
+  · simpa only [AccOK, chan_frame] using h
+  · simp only []
+    split
+    · exact hgo _ _ (by simpa only [AccOK, chan_frame] using h)
+    · split <;> pair_subst
+      · apply hgo; split at * <;> simp_all only [AccOK, chan_frame]
+      · apply sqWrite_AccOK cfg0 base go hgo; split at * <;> simp_all only [AccOK, chan_frame]
+
+theorem execBody_AccOK (c : Call) (s : St) (h : AccOK cfg0 base s) : AccOK cfg0 base (execBody go c s).1 := by
+  cases c <;> simp only [execBody]
+  case processAnswer fd r => exact bodyProcessAnswer_AccOK cfg0 base go hgo fd r s h
+  case sendQuery r k => exact bodySendQuery_AccOK cfg0 base go hgo r k s h
+  case destroy =>
+    unfold bodyDestroy
+    simp only []
+    exact foldl_closeConn_AccOK cfg0 base go hgo _ _ (hgo _ _ h)
+  all_goals (unfold_body; chan_peel hgo [AccOK])
+
+end
+
+/-- **Append-only, authentic `accepted` log (whole runs).**  Running any procedure with any fuel extends `accepted`,
+    and every new entry `(fd, key, r)` was `Authentic` in a state with the same configuration — the state in which
+    `process_answer` examined it (`bodyProcessAnswer_accepted`, `acceptKey_authentic`). -/
+theorem exec_AccOK (fuel : Nat) (c : Call) (s : St) : AccOK s.cfg s.accepted (exec fuel c s).1 := by
+  refine exec_inv (AccOK s.cfg s.accepted) ?_ ?_ fuel c s ⟨rfl, List.prefix_refl _, by simp⟩
+  · intro s' h; exact h
+  · intro go hgo c s' h; exact execBody_AccOK s.cfg s.accepted go hgo c s' h
+
+/-! ## direct lemmas about `process_answer` / `read_conn_packets` (C05, C20) -/
+
+/-- a zero-length datagram is consumed without any effect -/
+theorem bodyProcessAnswer_empty (go : Call → St → St × Ret) (fd : Nat) (r : Reply) (s : St) (c : Conn)
+    (hc : s.conn? fd = some c) (he : r.empty = true) : bodyProcessAnswer go fd r s = (s, .ok) := by
+  unfold bodyProcessAnswer; simp only [hc, he, ↓reduceIte]
+
+/-- garbage is not accepted either (it fails the connection: `ARES_EBADRESP`) and the state is untouched -/
+theorem bodyProcessAnswer_garbage (go : Call → St → St × Ret) (fd : Nat) (r : Reply) (s : St) (c : Conn)
+    (hc : s.conn? fd = some c) (he : r.empty = false) (hg : r.garbage = true) :
+    bodyProcessAnswer go fd r s = (s, .badresp) := by
+  unfold bodyProcessAnswer; simp only [hc, he, hg, Bool.false_eq_true, ↓reduceIte]
+
+/-- a response that is not accepted changes nothing except what `ares_cookie_validate` itself does (cookie state of
+    the server, BADCOOKIE re-send): in particular when no query has its id, or the question differs, the state is
+    untouched -/
+theorem bodyProcessAnswer_unknown_id (go : Call → St → St × Ret) (fd : Nat) (r : Reply) (s : St) (c : Conn)
+    (hc : s.conn? fd = some c) (hid : s.byQid.find? (·.1 == r.id) = none) :
+    (bodyProcessAnswer go fd r s).1 = s := by
+  unfold bodyProcessAnswer; simp only [hc, hid]
+  repeat (first | rfl | split)
+
+theorem bodyProcessAnswer_wrong_question (go : Call → St → St × Ret) (fd : Nat) (r : Reply) (s : St) (c : Conn)
+    (id key : Nat) (q : Query) (hc : s.conn? fd = some c) (hid : s.byQid.find? (·.1 == r.id) = some (id, key))
+    (hq : s.query? key = some q) (hs : sameQuestion s.cfg q r = false) :
+    (bodyProcessAnswer go fd r s).1 = s := by
+  unfold bodyProcessAnswer; simp only [hc, hid, hq]
+  have hsame : (q.qtype == r.qtype && q.qclass == r.qclass &&
+      if (s.cfg.dns0x20 && !q.usingTcp) = true then q.name == r.name
+      else hexLower q.name == hexLower r.name) = sameQuestion s.cfg q r := rfl
+  rw [hsame, hs]
+  simp only [Bool.not_false, ↓reduceIte]
+  repeat (first | rfl | split)
+
+theorem find?_map_key (k : Nat) (f : Query → Query) (hf : ∀ q, (f q).key = q.key) : ∀ (l : List Query),
+    (l.map fun x => if x.key == k then f x else x).find? (·.key == k) = (l.find? (·.key == k)).map f
+  | [] => rfl
+  | x :: rest => by
+    simp only [List.map_cons, List.find?_cons]
+    by_cases hx : (x.key == k) = true
+    · have : ((f x).key == k) = true := by rw [hf]; exact hx
+      simp only [hx, ↓reduceIte, this, Option.map_some]
+    · simp only [Bool.not_eq_true] at hx
+      simp only [hx, Bool.false_eq_true, ↓reduceIte]
+      exact find?_map_key k f hf rest
+
+theorem query?_modQuery_self (s : St) (k : Nat) (f : Query → Query) (hf : ∀ q, (f q).key = q.key) :
+    (s.modQuery k f).query? k = (s.query? k).map f := find?_map_key k f hf s.qs
+
+theorem mem_qs_modQuery {s : St} {k : Nat} {f : Query → Query} {q' : Query} (h : q' ∈ (s.modQuery k f).qs) :
+    ∃ q ∈ s.qs, q' = if q.key == k then f q else q := by
+  simp only [St.modQuery, List.mem_map] at h
+  obtain ⟨q, hq, rfl⟩ := h
+  exact ⟨q, hq, rfl⟩
+
+/-- **A truncated UDP answer is retried over TCP unless truncation is ignored.**  If `process_answer` accepts a
+    response with TC set that arrived on a UDP connection, `ARES_FLAG_IGNTC` is off, and the response is not a
+    FORMERR (which takes the EDNS-downgrade path first): nothing is delivered (no callback runs, no recursive call
+    is made at all) — the query is switched to TCP and its id queued for re-sending (`read_answers` re-sends the
+    queued ids through `ares_send_query` when its loop ends: `bodyFlushRequeue`). -/
+theorem bodyProcessAnswer_tc (go : Call → St → St × Ret) (fd : Nat) (r : Reply) (s : St) (c : Conn) (key : Nat)
+    (hc : s.conn? fd = some c) (hk : acceptKey s fd r = some key) (htc : r.tc = true) (hudp : c.tcp = false)
+    (hign : s.cfg.igntc = false) (hrc : r.rcode ≠ 1) :
+    ∃ s' q, bodyProcessAnswer go fd r s = (s', .ok) ∧ s.query? key = some q ∧
+      s'.requeueArr = s.requeueArr ++ [(q.qid, none)] ∧
+      s'.accepted = s.accepted ++ [(fd, key, r)] ∧
+      (∀ q' ∈ s'.qs, q'.key = key → q'.usingTcp = true) ∧
+      s'.doneToks = s.doneToks ∧ s'.cache = s.cache := by
+  have hauth := acceptKey_authentic hk
+  unfold acceptKey at hk
+  unfold bodyProcessAnswer
+  simp only [hc, hauth.notEmpty, hauth.notGarbage, Bool.false_eq_true, ↓reduceIte] at hk ⊢
+  cases hfind : s.byQid.find? (·.1 == r.id) with
+  | none => simp [hfind] at hk
+  | some p =>
+    obtain ⟨id, key'⟩ := p
+    simp only [hfind] at hk ⊢
+    cases hq : s.query? key' with
+    | none => simp [hq] at hk
+    | some q =>
+      simp only [hq] at hk ⊢
+      have hsame : (q.qtype == r.qtype && q.qclass == r.qclass &&
+          if (s.cfg.dns0x20 && !q.usingTcp) = true then q.name == r.name
+          else hexLower q.name == hexLower r.name) = sameQuestion s.cfg q r := rfl
+      rw [hsame]
+      have hv : Cookie.validate ((s.server? c.srv).getD default).cookie
+          { cookieTry := q.cookieTry, usingTcp := q.usingTcp } (if q.edns = true then q.reqCookie else none)
+          (if r.hasOpt = true then Option.map hexToBytes r.cookie else none) r.rcode s.tv =
+          cookieCheck s c q r := rfl
+      rw [hv]
+      by_cases hs : sameQuestion s.cfg q r = true
+      · simp only [hs, Bool.not_true, Bool.false_eq_true, ↓reduceIte] at hk ⊢
+        by_cases hd : ((cookieCheck s c q r).verdict == Cookie.Verdict.drop) = true
+        · simp [hd] at hk
+        · simp only [hd, Bool.false_eq_true, ↓reduceIte, Option.some.injEq] at hk ⊢
+          subst hk
+          have hrq : (cookieCheck s c q r).requeue = false := by
+            cases h : (cookieCheck s c q r).requeue with
+            | false => rfl
+            | true => rw [cookieCheck_requeue_drop s c q r h] at hd; simp at hd
+          have hrc' : (r.rcode == 1) = false := by simpa using hrc
+          simp only [hrq, Bool.false_eq_true, ↓reduceIte, hrc', Bool.false_and, htc, hudp, hign, Bool.not_false,
+            Bool.and_self, chan_frame]
+          refine ⟨_, q, rfl, hq, ?_, by simp only [chan_frame], ?_, by simp only [chan_frame],
+            by simp only [chan_frame]⟩
+          · simp only [chan_frame]
+            have : ((s.modServer c.srv fun v => { v with cookie := (cookieCheck s c q r).ck }).modQuery key' fun q_1 =>
+                { q_1 with cookieTry := (cookieCheck s c q r).q.cookieTry,
+                           usingTcp := (cookieCheck s c q r).q.usingTcp }).query? key' =
+                (s.query? key').map _ := query?_modQuery_self _ _ _ (fun _ => rfl)
+            rw [this, hq]
+            rfl
+          · intro q' hq' hkey
+            obtain ⟨x, _, rfl⟩ := mem_qs_modQuery hq'
+            by_cases hx : (x.key == key') = true
+            · simp only [hx, ↓reduceIte]
+            · simp only [hx, Bool.false_eq_true, ↓reduceIte] at hkey
+              simp only [hkey, beq_self_eq_true, not_true_eq_false] at hx
+      · simp [hs] at hk
+
+/-- … and with `ARES_FLAG_IGNTC` the truncated answer is used as it is: a NOERROR response goes to `end_query` -/
+theorem bodyProcessAnswer_igntc (go : Call → St → St × Ret) (fd : Nat) (r : Reply) (s : St) (c : Conn) (key : Nat)
+    (hc : s.conn? fd = some c) (hk : acceptKey s fd r = some key) (hign : s.cfg.igntc = true) (hrc : r.rcode = 0) :
+    ∃ s', bodyProcessAnswer go fd r s = ((go (.endQuery (some c.srv) key .ok (some r)) s').1, .ok) ∧
+      s'.accepted = s.accepted ++ [(fd, key, r)] := by
+  have hauth := acceptKey_authentic hk
+  unfold acceptKey at hk
+  unfold bodyProcessAnswer
+  simp only [hc, hauth.notEmpty, hauth.notGarbage, Bool.false_eq_true, ↓reduceIte] at hk ⊢
+  cases hfind : s.byQid.find? (·.1 == r.id) with
+  | none => simp [hfind] at hk
+  | some p =>
+    obtain ⟨id, key'⟩ := p
+    simp only [hfind] at hk ⊢
+    cases hq : s.query? key' with
+    | none => simp [hq] at hk
+    | some q =>
+      simp only [hq] at hk ⊢
+      have hsame : (q.qtype == r.qtype && q.qclass == r.qclass &&
+          if (s.cfg.dns0x20 && !q.usingTcp) = true then q.name == r.name
+          else hexLower q.name == hexLower r.name) = sameQuestion s.cfg q r := rfl
+      rw [hsame]
+      have hv : Cookie.validate ((s.server? c.srv).getD default).cookie
+          { cookieTry := q.cookieTry, usingTcp := q.usingTcp } (if q.edns = true then q.reqCookie else none)
+          (if r.hasOpt = true then Option.map hexToBytes r.cookie else none) r.rcode s.tv =
+          cookieCheck s c q r := rfl
+      rw [hv]
+      by_cases hs : sameQuestion s.cfg q r = true
+      · simp only [hs, Bool.not_true, Bool.false_eq_true, ↓reduceIte] at hk ⊢
+        by_cases hd : ((cookieCheck s c q r).verdict == Cookie.Verdict.drop) = true
+        · simp [hd] at hk
+        · simp only [hd, Bool.false_eq_true, ↓reduceIte, Option.some.injEq] at hk ⊢
+          subst hk
+          have hrq : (cookieCheck s c q r).requeue = false := by
+            cases h : (cookieCheck s c q r).requeue with
+            | false => rfl
+            | true => rw [cookieCheck_requeue_drop s c q r h] at hd; simp at hd
+          simp only [hrq, Bool.false_eq_true, ↓reduceIte, hrc, hign, Bool.not_true, Bool.and_false,
+            Bool.false_and, chan_frame, Nat.reduceBEq, Bool.or_self, Bool.and_false]
+          exact ⟨_, rfl, by simp only [chan_frame]⟩
+      · simp [hs] at hk
+
+/-- **A datagram from the wrong source address never reaches `process_answer`**: `read_conn_packets` takes it off
+    the socket and goes on to `read_answers` with the connection's in_buf — and everything else — as it was. -/
+theorem bodyProcessRead_wrong_source (go : Call → St → St × Ret) (fd : Nat) (s : St) (c : Conn) (v : VSock)
+    (r : Reply) (rest : List Reply) (hc : s.conn? fd = some c) (hv : s.sock? fd = some v)
+    (hul : c.unlinked = false) (hudp : c.tcp = false) (hf : (s.fault "recvfrom").1 = none)
+    (hrx : v.rx = r :: rest) (hw : r.wrongsrc = true) :
+    ∃ s', bodyProcessRead go fd s = go (.readAnswers fd) s' ∧
+      s'.conns = s.conns ∧ s'.accepted = s.accepted ∧ s'.qs = s.qs ∧ s'.cache = s.cache ∧
+      s'.servers = s.servers ∧ s'.requeueArr = s.requeueArr ∧
+      s'.socks = s.socks.map (fun x => if x.fd == fd then { x with rx := rest } else x) := by
+  unfold bodyProcessRead
+  simp only [hc, hv, hul, hudp, Bool.false_eq_true, ↓reduceIte, Bool.not_false]
+  split <;> pair_subst
+  · rename_i e hfe
+    rw [hf] at hfe
+    cases hfe
+  simp only [hrx, hw, ↓reduceIte]
+  refine ⟨_, rfl, by simp only [chan_frame], by simp only [chan_frame], by simp only [chan_frame],
+    by simp only [chan_frame], by simp only [chan_frame], by simp only [chan_frame], ?_⟩
+  simp only [St.modSock, St.slog, St.fault]
+
 end Cares.Chan
